@@ -13,6 +13,10 @@ def u(x): return ('u', x)
 def add(t): return ('add', t)
 def union(s, t): return ('union', s, t)
 def readd(t): return ('readd', t)
+def probe(t): return ('probe', t)
+def ematch(p): return ('ematch', p)
+def rule(name, lhs, rhs): return ('rule', name, lhs, rhs)
+def rewrite(*rules): return ('rewrite', list(rules))
 
 QUICK = [
     # --- multi-slot leaves: redundancy, symmetry, all sharing patterns between the two sides
@@ -59,6 +63,35 @@ def _with_groups(base, which):
             t.group = t.name; out.append(reorder(t, mode))
     return out
 
+# --- matching and rewriting on template final states (pattern slots are extra names that may equal ANY slot issued before the pattern is written)
+RW = [
+    T('M1', 'Lf', 6, [add(f(0, 1)), add(f(2, 3)), union(f(0, 1), f(2, 3)), ematch(f(4, 5))], late={4: 3, 5: 3},
+      note='single-pattern matcher (f $p $q) on every final state of T1, pattern slot names free'),
+    T('M2', 'Lb', 4, [add(app(var(0), var(1))), add(lam(0, app(var(0), var(1)))), ematch(app('?a', '?b')), ematch(app('?a', '?a')), ematch(lam(2, '?b')), ematch(app(var(3), '?b'))], late={2: 4, 3: 5},
+      note='patterns with variables, a repeated variable, a binder, a nested leaf'),
+    T('R1', 'Lf', 6, [add(f(0, 1)), add(f(2, 3)), union(f(0, 1), f(2, 3)), rewrite(rule('f-to-g', f(4, 5), g(5, 4))), probe(g(1, 0)), probe(g(3, 2)), rewrite(rule('f-to-g', f(4, 5), g(5, 4)))], late={4: 3, 5: 3},
+      note='(f $x $y) => (g $y $x) on every final state of T1; second application must report no change'),
+    T('R2', 'Lb', 3, [add(app(var(0), var(1))), add(app(var(1), var(1))), rewrite(rule('comm', app('?a', '?b'), app('?b', '?a')), rule('idem', app('?a', '?a'), '?a')), probe(app(var(1), var(0))), rewrite(rule('comm', app('?a', '?b'), app('?b', '?a')), rule('idem', app('?a', '?a'), '?a'))],
+      note='variable patterns: commutativity and (app ?a ?a) => ?a, both searched before either is applied'),
+    T('R3', 'Lb', 4, [add(u(k(0, 1))), add(k(1, 0)), union(k(0, 1), k(1, 0)), add(u(k(1, 0))), rewrite(rule('k-to-j', u(k(2, 3)), u(j(2, 3)))), probe(u(j(0, 1))), probe(u(j(1, 0)))], late={2: 4, 3: 4},
+      note='nested pattern over a child class with a swap symmetry: both orientations are instances'),
+    T('R4', 'Lb', 4, [add(app(k(0, 1), j(0, 1))), add(k(1, 0)), union(k(0, 1), k(1, 0)),
+                      rewrite(rule('direct', app(k(2, 3), j(2, 3)), u(j(2, 3))), rule('flipped', app(k(2, 3), j(3, 2)), u(u(j(2, 3))))),
+                      probe(u(j(0, 1))), probe(u(u(j(1, 0))))], late={2: 3, 3: 3},
+      note='symmetric child class next to a non-symmetric sibling: the pattern in the stored orientation and in the other one are both instances'),
+    T('R5', 'Lb', 4, [add(app(j(0, 1), k(0, 1))), add(k(1, 0)), union(k(0, 1), k(1, 0)),
+                      rewrite(rule('direct', app(j(2, 3), k(2, 3)), u(j(2, 3))), rule('flipped', app(j(2, 3), k(3, 2)), u(u(j(2, 3))))),
+                      probe(u(j(0, 1))), probe(u(u(j(0, 1))))], late={2: 3, 3: 3},
+      note='the symmetric child comes after a sibling that already mentions its slots; both orientations are instances'),
+    T('R6', 'Lf', 6, [add(h(0, 1, 2)), rewrite(rule('rot', h(3, 4, 5), h(4, 5, 3))), rewrite(rule('rot', h(3, 4, 5), h(4, 5, 3))), rewrite(rule('swap', h(3, 4, 5), h(4, 3, 5))), probe(h(1, 0, 2)), rewrite(rule('swap', h(3, 4, 5), h(4, 3, 5)))],
+      distinct=[[0, 1, 2], [3, 4, 5]], late={3: 1, 4: 1, 5: 1}, note='a class with the rotation group C3 learns a transposition in a separate call (C3 -> S3): the call must report a change'),
+    T('R7', 'Lf', 5, [add(f(0, 1)), rewrite(rule('forget', f(2, 3), f(4, 3))), probe(f(1, 1)), rewrite(rule('forget', f(2, 3), f(4, 3)))], late={2: 1, 3: 1, 4: 1},
+      note='both sides of the rule instance lie in one class with different slot arguments: a slot becomes redundant, nothing else changes'),
+]
+
+for _t in RW:
+    if _t.name in ('R6', 'R1'): _t.light = True
+QUICK = QUICK + RW
 QUICK = _with_groups(QUICK, {'T1': ('rev',), 'T3': ('rev',), 'T4': ('flip',), 'B2': ('flip',), 'B5': ('rev',), 'TH2': ('rev',)})
 
 THOROUGH = []
